@@ -204,8 +204,11 @@ func (defaultLog) Handle(_ context.Context, r slog.Record) error {
 }
 
 func init() {
-	if os.Getenv("MEMBERSHIP_LOG") != "" {
+	if p := os.Getenv("MEMBERSHIP_LOG"); p != "" {
 		logOut = os.Stderr
+		if f, err := os.OpenFile(p, os.O_APPEND|os.O_CREATE|os.O_WRONLY, 0o644); err == nil {
+			logOut = f
+		}
 	}
 	slog.SetDefault(slog.New(defaultLog{}))
 }
